@@ -616,6 +616,9 @@ class World:
             raise oserr(errno.ENOENT, path)
         if tail in p.denied:
             raise oserr(errno.EACCES, path)
+        once = getattr(p, "fail_once", None)
+        if once and tail in once:
+            raise oserr(once.pop(tail), path)       # a one-shot resource failure (EMFILE/ENOMEM) of this very open()
         if p.zombie and tail in ("environ", "smaps_rollup"):
             raise oserr(errno.ESRCH, path)
         if tail == "smaps_rollup" and not p.rollup:
